@@ -31,3 +31,50 @@ pub proof fn thm_C13_codec_roundtrip(sig: CL03Signature, bytes: Seq<u8>, dec: CL
     ax_integer_ext(dec.s, sig.s);
     ax_integer_ext(dec.v, sig.v);
 }
+
+/// what disclose_selectively establishes for every position (C13.disclose.hidden / C13.disclose.revealed are the verified postconditions)
+pub open spec fn disclosed(b: Seq<Integer>, m: Seq<CL03Message>, sb: Seq<Integer>, sm: Seq<CL03Message>, hid: Seq<usize>, n: int) -> bool {
+    &&& sb.len() == b.len() && sm.len() == m.len() && m.len() <= b.len() && m.len() <= usize::MAX
+    &&& forall|x: usize| x < m.len() && (#[trigger] hid.contains(x)) ==> sb[x as int]@ == pow_mod(b[x as int]@, m[x as int].value@, n) && sm[x as int].value@ == 1
+    &&& forall|x: usize| x < m.len() && !(#[trigger] hid.contains(x)) ==> sb[x as int] == b[x as int] && sm[x as int] == m[x as int]
+}
+
+/// selective disclosure does not change the attribute product ...
+pub proof fn lemma_disclose_prod(b: Seq<Integer>, m: Seq<CL03Message>, sb: Seq<Integer>, sm: Seq<CL03Message>, hid: Seq<usize>, n: int, k: int)   //# C13.thm.disclose_prod
+    requires n > 0, disclosed(b, m, sb, sm, hid, n), 0 <= k <= m.len(),
+    ensures attr_prod(sb, sm, n, k) == attr_prod(b, m, n, k),
+    decreases k,
+{
+    if k > 0 {
+        lemma_disclose_prod(b, m, sb, sm, hid, n, k - 1);
+        let x = (k - 1) as usize;
+        if hid.contains(x) {
+            let f = pow_mod(b[k - 1]@, m[k - 1].value@, n);
+            ax_pow_mod_range(b[k - 1]@, m[k - 1].value@, n);
+            ax_pow_mod_one(f, n);
+            assert(f % n == f) by (nonlinear_arith) requires 0 <= f < n;
+            assert(pow_mod(sb[k - 1]@, sm[k - 1].value@, n) == f);
+        } else {
+            assert(sb[x as int] == b[x as int] && sm[x as int] == m[x as int]);
+        }
+    }
+}
+
+/// ... hence the derived (bases, attributes) pair satisfies the verification equation exactly when the original pair does,
+/// and it stays inside the attribute range (the constant 1 fits for lm >= 1): a signature that verifies on the full vector
+/// verifies after selective disclosure, for every hidden set.
+pub proof fn thm_C13_disclose(pk: CL03PublicKey, sig: CL03Signature, b: Seq<Integer>, m: Seq<CL03Message>, sb: Seq<Integer>, sm: Seq<CL03Message>, hid: Seq<usize>, lm: nat)   //# C13.thm.disclose_verifies
+    requires pk.N@ > 0, disclosed(b, m, sb, sm, hid, pk.N@), lm >= 1,
+    ensures
+        cl_equation(pk, sig, sb, sm) == cl_equation(pk, sig, b, m),
+        cl_attrs_in_range(m, lm) ==> cl_attrs_in_range(sm, lm),
+{
+    lemma_disclose_prod(b, m, sb, sm, hid, pk.N@, m.len() as int);
+    if cl_attrs_in_range(m, lm) {
+        assert(ipow(2, lm) >= 2) by { reveal_with_fuel(ipow, 2); lemma_ipow2_mono(1, lm); }
+        assert forall|i: int| 0 <= i < sm.len() implies 0 <= (#[trigger] sm[i]).value@ && sm[i].value@ < ipow(2, lm) by {
+            let x = i as usize;
+            if hid.contains(x) { } else { assert(sm[x as int] == m[x as int]); assert(0 <= m[i].value@); }
+        }
+    }
+}
